@@ -104,7 +104,15 @@ pub fn run_scenario(sc: &Value, dir: &str) -> Vec<Value> {
     let srv_thread = thread::spawn(move || {
         let sys = actix_rt::System::new();
         sys.block_on(async move {
-            let la = std::net::TcpListener::bind("127.0.0.1:0").unwrap();
+            // listen backlog 1024 (std's default of 128 would make a burst of clients behind a pause block in connect)
+            let la: std::net::TcpListener = {
+                use socket2::{Domain, Socket, Type};
+                let s = Socket::new(Domain::IPV4, Type::STREAM, None).unwrap();
+                s.set_reuse_address(true).unwrap();
+                s.bind(&"127.0.0.1:0".parse::<std::net::SocketAddr>().unwrap().into()).unwrap();
+                s.listen(1024).unwrap();
+                s.into()
+            };
             let addr_a = la.local_addr().unwrap();
             let sa = sh2.clone();
             let mut b = Server::build()
@@ -200,7 +208,7 @@ pub fn run_scenario(sc: &Value, dir: &str) -> Vec<Value> {
                             _ if to_b => addr_b.unwrap(),
                             _ => addr_a,
                         };
-                        StdTcpStream::connect(addr).and_then(|mut s| s.write_all(&[id]).map(|_| Client::Tcp(s)))
+                        StdTcpStream::connect_timeout(&addr, Duration::from_secs(3)).and_then(|mut s| s.write_all(&[id]).map(|_| Client::Tcp(s)))
                     };
                     match r {
                         Ok(c) => {
